@@ -500,7 +500,7 @@ PROPS["C13"] = dict(
         K("c13", "c13_evaluate_is_antisymmetric", desc="Evaluator::evaluate(s, White, d) == -evaluate(s, Black, d): real control flow, "
           "mate/stalemate branch included, callees replaced by their contracts, four abstract terms with arbitrary per-perspective values, "
           "up to 8 candidate king steps (measured 1800 s)", functions=["Evaluator::evaluate"], timeout=5400, tier="thorough", heavy=True),
-        K("c13", "c13_evaluate_is_antisymmetric_quick", kind="bounded", bound="no candidate king step (the shortcut never fires) and a single abstract term with weight 0.8",
+        K("c13", "c13_evaluate_is_antisymmetric_quick", kind="bounded", bound="no candidate king step (the shortcut never fires) and two abstract terms with weights 1.0 and 0.8",
           desc="same obligation through the move-generation branch only", functions=["Evaluator::evaluate"], timeout=2400),
         K("c13", "c13_piece_square_mirror", desc="evaluate_piece_square(k, sq, White, w) == evaluate_piece_square(k, flip(sq), Black, w) for all "
           "kinds, squares and every weight in [0,1]", functions=["evaluate_piece_squares::evaluate_piece_square", "Square::flip_rank"], timeout=1500),
